@@ -262,6 +262,13 @@ void second() { }
 	if want := "a:ByteAddressBuffer:t1:s3:true;b:RWByteAddressBuffer:u2:s0:true;c:RWByteAddressBuffer:\x00-1:s0:true;tex:Texture2D:t4:s0:false;"; desc != want {
 		t.Errorf("resources:\n got %q\nwant %q", desc, want)
 	}
+	bdesc := ""
+	for _, b := range p.Blocks() {
+		bdesc += fmt.Sprintf("%s:%s:%c%d:%s:%s:%v;", b.Name, b.Type, b.Class, b.Binding, b.Space, b.Layout, b.ReadOnly)
+	}
+	if want := "a:ByteAddressBuffer:t1:space3:raw:true;b:RWByteAddressBuffer:u2:space0:raw:false;c:RWByteAddressBuffer:u-1:space0:raw:false;"; bdesc != want {
+		t.Errorf("blocks:\n got %q\nwant %q", bdesc, want)
+	}
 	eps := p.HLSLEntryPoints()
 	if len(eps) != 2 || eps[0].Name != "cs_main" || eps[0].NumThreads != [3]uint32{4, 2, 1} || eps[1].Name != "second" {
 		t.Fatalf("entry points: %+v", eps)
